@@ -60,7 +60,8 @@ def run_check(prop, tier, n=None, budget=None, opts=None):
     seeds = [core.run_seed(base, i) for i in range(n)]
     print("%s %s: VERIF_SEED=%d runs=%d budget=%ds workers=%s repo=%s" % (
         prop, tier, base, n, budget, os.environ.get("VERIF_WORKERS", os.cpu_count()), core.REPO), flush=True)
-    results = core.run_pool(_task, [(prop, s, tier, opts) for s in seeds], task_timeout=m.TASK_TIMEOUT, wall_budget=budget)
+    results = core.run_pool(_task, [(prop, s, tier, opts) for s in seeds], task_timeout=m.TASK_TIMEOUT, wall_budget=budget,
+                            recycle=getattr(m, "RECYCLE_WORKERS", False))
     ok = [pl for (_a, st, pl) in results if st == "ok"]
     harness = [(a[1], pl) for (a, st, pl) in results if st == "harness"]
     timeouts = [(a[1], pl) for (a, st, pl) in results if st == "timeout"]
@@ -82,7 +83,8 @@ def run_check(prop, tier, n=None, budget=None, opts=None):
     for cl in classes:
         rs = sorted(by_class[cl], key=lambda r: (r["n_ops"], r["seed"]))
         shrink_args.append((prop, rs[0]["case"], list(cl)))
-    shr = core.run_pool(_shrink_task, shrink_args, task_timeout=max(600, m.TASK_TIMEOUT * 4)) if shrink_args else []
+    shr = core.run_pool(_shrink_task, shrink_args, task_timeout=max(600, m.TASK_TIMEOUT * 4),
+                        recycle=getattr(m, "RECYCLE_WORKERS", False)) if shrink_args else []
     for (arg, st, pl), cl in zip(shr, classes):
         case = arg[1]
         viol = None
